@@ -32,7 +32,8 @@ CONSTANTS NB,        \* bars are 1..NB (bar b is created by the b-th Add in prog
           Pop,       \* PopCompletedMode
           Prog,      \* Prog[c] = sequence of calls of client c
           MaxTicks,  \* refresh periods the scheduler may let pass (bounds the graph)
-          Fault      \* [b, at]: the at-th Fill of bar b returns an error (at = 0: never)
+          Fault,     \* [b, at]: the at-th Fill of bar b returns an error (at = 0: never)
+          Refresh    \* "auto" | "manual" | "none"
 
 Bars    == 1..NB
 Clients == DOMAIN Prog
@@ -73,7 +74,8 @@ Init0 ==
    dist  |-> <<>>,             \* width distributors: [members, i, pc]
    er    |-> <<>>,             \* early refresh goroutines: [b, pc, drop]
    dp    |-> <<>>,             \* detached pushes: [req, pc]
-   ls    |-> "idle",
+   ls    |-> IF Refresh = "none" THEN "gone" ELSE "idle",
+   mreq  |-> 0,                \* manual refresh requests sent and not yet taken by the listener
    lsPend |-> FALSE,           \* the ticker's one-slot channel holds a tick the listener has not taken yet
    pctx  |-> FALSE, done |-> FALSE,
    iterDrop |-> FALSE,         \* closed by the container on a render error
@@ -140,6 +142,7 @@ DistLabels(st) == {<<"dist:start", st.dist[k].members[1], k>> : k \in {j \in DOM
 BarLabels(st) == {<<"rg:start", b, 0>> : b \in {x \in Bars : st.bar[x].rg = "gate"}}
                 \cup {<<"fmt:send", b, 0>> : b \in {x \in Bars : st.bar[x].rd = "fmt_gate"}}
                 \cup {<<"bar:exit", b, 0>> : b \in {x \in Bars : st.bar[x].pc = "exit_gate"}}
+                \cup {<<"bar:cancel", b, 0>> : b \in {x \in Bars : st.bar[x].pc = "cancel_gate"}}
 CtLabels(st) ==
   CASE st.ct.pc = "push_gate"   -> {<<"ct:push", st.ct.b, 0>>}
     [] st.ct.pc = "hm_gate"     -> {<<"ct:hm:" \o (IF st.ct.cmd = "itertrav" THEN "iter" ELSE st.ct.cmd), 0, 0>>}
@@ -182,6 +185,7 @@ Release(st, g) ==
     [] g[1] = "rg:start"  -> [st EXCEPT !.bar[g[2]].rg = "handoff"]
     [] g[1] = "fmt:send"  -> [st EXCEPT !.bar[g[2]].rd = "fmt_send"]
     [] g[1] = "bar:exit"  -> [st EXCEPT !.bar[g[2]].pc = "exit_do"]
+    [] g[1] = "bar:cancel" -> [st EXCEPT !.bar[g[2]].pc = "idle", !.bar[g[2]].ctx = TRUE]
     [] g[1] = "dist:start" -> [st EXCEPT !.dist[g[3]].pc = "collect"]
     [] g[1] = "dist:mid"  -> [st EXCEPT !.dist[g[3]].pc = "distribute", !.dist[g[3]].i = 1]
     [] g[1] = "er:start"  -> [st EXCEPT !.er[g[3]].pc = "trav_send"]
@@ -197,7 +201,10 @@ ErReferenced(st, k) ==   \* a traversal request of this goroutine is still on it
   \/ \E i \in DOMAIN st.hmbuf : st.hmbuf[i].cmd = "itertrav" /\ st.hmbuf[i].e = k
   \/ \E i \in DOMAIN st.hmblk : st.hmblk[i].req.cmd = "itertrav" /\ st.hmblk[i].req.e = k
   \/ (st.ct.cmd = "itertrav" /\ st.ct.e = k /\ st.ct.pc \in {"hm_gate", "hm_do", "hm_blocked", "hm_sent"})
+(* triggerCompletion: an early-refresh goroutine in an auto-refresh container; otherwise the bar cancels
+   itself (gate bar:cancel, inside the closure its goroutine is executing) *)
 SpawnEr(st, b) ==
+  IF Refresh # "auto" THEN [st EXCEPT !.bar[b].pc = "cancel_gate"] ELSE
   LET rec == [b |-> b, pc |-> "gate", drop |-> FALSE, closed |-> FALSE]
       free == {k \in DOMAIN st.er : st.er[k].pc = "gone" /\ ~ErReferenced(st, k)} IN
   IF free = {} THEN [st EXCEPT !.er = Append(@, rec)]
@@ -231,11 +238,13 @@ MicroClient(st, c) ==
             IF st.bar[op.b].exists THEN {[st EXCEPT !.cl[c].st = "sendbar"]} ELSE {Return(st, c)}
        [] op.op = "wait"  -> {[st EXCEPT !.cl[c].st = "waitbwg"]}
        [] op.op = "shutdown" -> {[st EXCEPT !.cl[c].st = "cancel_gate"]}
+       [] op.op = "refresh" -> {Return([st EXCEPT !.mreq = @ + 1], c)}
        [] OTHER -> {Return(st, c)}
   ELSE IF C.st = "waitbwg" /\ st.bwg = 0 THEN {[st EXCEPT !.cl[c].st = "cancel_gate"]}
   ELSE IF C.st = "cancel_do" THEN
      \* p.cancel(): the container context and every bar's child context
-     {[st EXCEPT !.pctx = TRUE, !.bar = [b \in Bars |-> [@[b] EXCEPT !.ctx = TRUE]], !.cl[c].st = "waitpwg"]}
+     {[st EXCEPT !.pctx = TRUE, !.done = IF Refresh = "none" THEN TRUE ELSE @,
+                 !.bar = [b \in Bars |-> [@[b] EXCEPT !.ctx = TRUE]], !.cl[c].st = "waitpwg"]}
   ELSE IF C.st = "waitpwg" /\ st.ctgone THEN {Return(st, c)}
   ELSE {}
 
@@ -368,7 +377,8 @@ MicroCt(st) ==
          \* close(s.iterDrop); b.cancel(); return err  -- then serve(): go drain(); gate; p.cancel()
          {[st EXCEPT !.iterDrop = TRUE, !.bar[T.b].ctx = TRUE, !.err = TRUE, !.drain = "run", !.ct.pc = "pcancel_gate"]}
     [] T.pc = "pcancel_do" ->
-         {[st EXCEPT !.pctx = TRUE, !.bar = [b \in Bars |-> [@[b] EXCEPT !.ctx = TRUE]], !.ct.pc = "err_wait"]}
+         {[st EXCEPT !.pctx = TRUE, !.done = IF Refresh = "none" THEN TRUE ELSE @,
+                     !.bar = [b \in Bars |-> [@[b] EXCEPT !.ctx = TRUE]], !.ct.pc = "err_wait"]}
     [] T.pc = "err_wait" /\ st.done ->
          {[st EXCEPT !.debug = @ + 1, !.ct.pc = "hm_gate", !.ct.cmd = "end"]}
     [] T.pc = "io_do" ->
@@ -416,8 +426,9 @@ MicroEr(st, k) ==
 (* --- listener --- *)
 MicroLs(st) ==
   IF st.ls = "done_do" THEN {[st EXCEPT !.done = TRUE, !.ls = "gone"]}
-  ELSE IF st.ls = "idle" /\ st.pctx /\ ~st.lsPend THEN {[st EXCEPT !.ls = "done_gate"]}
+  ELSE IF st.ls = "idle" /\ st.pctx /\ ~st.lsPend /\ st.mreq = 0 THEN {[st EXCEPT !.ls = "done_gate"]}
   ELSE IF st.ls = "idle" /\ ~st.pctx /\ st.lsPend THEN {[st EXCEPT !.ls = "tick_gate", !.lsPend = FALSE]}
+  ELSE IF st.ls = "idle" /\ ~st.pctx /\ st.mreq > 0 THEN {[st EXCEPT !.ls = "tick_gate", !.mreq = @ - 1]}
   ELSE {}
 
 (* deterministic moves of any goroutine (they commute; the order chosen here does not matter) *)
@@ -452,7 +463,8 @@ Rendezvous(st) ==
                : k \in {j \in DOMAIN st.er : st.er[j].pc = "trav_send"}}
       \cup (IF st.ls = "tick_send" THEN {StartRender([st EXCEPT !.ls = "idle"])} ELSE {})
       \cup {StartRender([st EXCEPT !.er[k].pc = "pump_gate"]) : k \in {j \in DOMAIN st.er : st.er[j].pc = "pump_send"}}
-      \cup (IF st.done THEN {StartRender([st EXCEPT !.ct.final = TRUE])} ELSE {})
+      \cup (IF st.done THEN {IF Refresh = "auto" THEN StartRender([st EXCEPT !.ct.final = TRUE])
+                                ELSE [st EXCEPT !.ct.pc = "hm_gate", !.ct.cmd = "end"]} ELSE {})
    ELSE {})
   \* unordered iteration: the manager hands a bar to the container (which starts its render goroutine) ...
   \cup (IF st.hm.pc = "iter_do" /\ st.hm.req.cmd = "iter" /\ st.ct.pc = "recv_iter"
@@ -518,6 +530,8 @@ Rendezvous(st) ==
   \* the listener's select with both a tick and the cancelled context ready
   \cup (IF st.ls = "idle" /\ st.pctx /\ st.lsPend
         THEN {[st EXCEPT !.ls = "done_gate"], [st EXCEPT !.ls = "tick_gate", !.lsPend = FALSE]} ELSE {})
+  \cup (IF st.ls = "idle" /\ st.pctx /\ st.mreq > 0
+        THEN {[st EXCEPT !.ls = "done_gate"], [st EXCEPT !.ls = "tick_gate", !.mreq = @ - 1]} ELSE {})
   \cup ClientEscapes(st)
 
 (* run to quiescence: deterministic moves first, then the choices *)
@@ -551,13 +565,25 @@ Step == \E g \in Parked(s) :
 (* one refresh period passes: the ticker fires (its channel holds one tick; more are dropped) *)
 AfterTick(st) == IF st.ls = "gone" THEN {st} ELSE Quiesce([st EXCEPT !.lsPend = TRUE])
 Tick == /\ s.panic = "none" /\ ~AllDone(s)
-        /\ s.ls # "gone" /\ ~s.lsPend /\ s.ticks < MaxTicks
-        /\ s' \in AfterTick([s EXCEPT !.ticks = @ + 1])
+        /\ Refresh = "auto" /\ s.ls # "gone" /\ ~s.lsPend /\ ~s.pctx /\ (MaxTicks < 0 \/ s.ticks < MaxTicks)
+        /\ s' \in AfterTick(IF MaxTicks < 0 THEN s ELSE [s EXCEPT !.ticks = @ + 1])
         /\ last' = "tick"
 
 Next == Step \/ Tick
 Spec == Init /\ [][Next]_vars
-FairSpec == Spec /\ WF_vars(Step)
+
+(* a fair scheduler: every parked gate is eventually released, and time passes.  (A parked gate stays
+   parked until it is released, so weak fairness per gate is enough.) *)
+GateNames == {"cl", "pw:cancel", "ct:push", "ct:hm:sync", "ct:hm:iter", "ct:hm:state", "ct:hm:end", "ct:hm:fix", "ct:cancelbar",
+              "ct:flush", "ct:io", "ct:drop", "ct:pcancel", "hm:req:push", "hm:req:sync", "hm:req:iter", "hm:req:state", "hm:req:end",
+              "hm:req:fix", "hm:iter", "hm:pop", "ls:tick", "ls:done", "rg:start", "fmt:send", "bar:exit", "bar:cancel",
+              "dist:start", "dist:mid", "er:start", "er:pump", "dp:send"}
+AllGates == GateNames \X (0..NB) \X (0..4)
+StepG(g) == /\ g \in Parked(s) /\ s.panic = "none" /\ ~AllDone(s)
+            /\ (IF g[1] = "cl" THEN Eligible(s, g[2]) ELSE TRUE)
+            /\ s' \in Quiesce(Release(s, g))
+            /\ last' = Label(g)
+FairSpec == Spec /\ WF_vars(Tick) /\ \A g \in AllGates : WF_vars(StepG(g))
 
 (* ------------------------------------------------------------- properties *)
 NoPanic == s.panic = "none"                                                    \* C02
@@ -565,7 +591,7 @@ NoPanic == s.panic = "none"                                                    \
 (* C01: a state in which nothing is parked, no tick can help and a call is still pending.  With the tick
    budget exhausted a pending call is not a hang: the budget is a bound of the model, not of the code. *)
 Stuck == /\ ~AllDone(s) /\ Parked(s) = {} /\ s.panic = "none"
-         /\ ~(s.ls = "idle" /\ ~s.pctx)
+         /\ ~(Refresh = "auto" /\ s.ls = "idle" /\ ~s.pctx)
 NoHang == ~Stuck
 
 (* C05: a bar that exists and has not left the container is in exactly one place *)
@@ -592,7 +618,7 @@ NoDupInFrame == \A i, j \in DOMAIN s.out.rows : i # j => s.out.rows[i] # s.out.r
 (* C13: accepted text is written at most once and never invented *)
 TextAtMostOnce == s.written + s.cw = s.accepted
 (* C13 / C03: when every call has returned, all accepted text has been written *)
-TextWritten == (AllDone(s) /\ s.panic = "none" /\ ~s.err) => s.written = s.accepted
+TextWritten == (AllDone(s) /\ s.panic = "none" /\ ~s.err /\ Refresh = "auto") => s.written = s.accepted
 
 (* C16: when every call has returned, no library goroutine is left that can never finish *)
 Quiescent == (AllDone(s) /\ s.panic = "none") =>
